@@ -91,6 +91,32 @@ def all_of(*conds):
     return all(conds)
 
 
+def any_of(*conds):
+    """Disjunction of (possibly symbolic) booleans as ONE solver term."""
+    if not _SYMBOLIC_MODE:
+        return any(conds)
+    import z3
+    from crosshair.core import NoTracing
+    from crosshair.libimpl.builtinslib import SymbolicBool
+
+    with NoTracing():
+        terms = []
+        for c in conds:
+            if isinstance(c, SymbolicBool):
+                terms.append(c.var)
+            elif isinstance(c, bool):
+                if c:
+                    return True
+            else:
+                terms = None
+                break
+        if terms is not None:
+            if not terms:
+                return False
+            return SymbolicBool(z3.Or(*terms))
+    return any(conds)
+
+
 def rng(x, lo, hi):
     """lo <= x <= hi as one symbolic boolean."""
     return all_of(lo <= x, x <= hi)
@@ -106,17 +132,23 @@ def concretize(x):
 
 
 def pick(seq, idx):
-    """Symbolic choice of an element of a concrete sequence (forks on idx)."""
+    """Symbolic choice of an element of a concrete sequence: forks on idx by bisection (log2(n) solver decisions per
+    path instead of n)."""
     n = len(seq)
     assume(rng(idx, 0, n - 1))
-    for i in range(n - 1):
-        if idx == i:
-            return seq[i]
-    return seq[n - 1]
-    for i in range(n):
-        if idx == i:
-            return seq[i]
-    raise HarnessError("pick fell through")
+    lo, hi = 0, n  # invariant: lo <= idx < hi
+    while hi - lo > 1:
+        mid = (lo + hi) // 2
+        if idx < mid:
+            hi = mid
+        else:
+            lo = mid
+    return seq[lo]
+
+
+def pick_int(idx, lo: int, hi: int) -> int:
+    """Concrete value of a symbolic int known to lie in [lo, hi] (bisection fork)."""
+    return pick(range(lo, hi + 1), idx - lo)
 
 
 # --------------------------------------------------------------------------------------------------------------
@@ -311,8 +343,12 @@ def explore(
     import typing
 
     hints = typing.get_type_hints(fn)
+    # symbolic = annotated parameters WITHOUT a default that are not pinned by `fixed`; parameters with a default
+    # are configuration knobs and keep their default unless pinned
     sym_params = [
-        p.replace(annotation=hints.get(n, p.annotation)) for n, p in sig_full.parameters.items() if n not in fixed
+        p.replace(annotation=hints.get(n, p.annotation))
+        for n, p in sig_full.parameters.items()
+        if n not in fixed and p.default is inspect.Parameter.empty
     ]
     for p in sym_params:
         if p.annotation is inspect.Parameter.empty:
